@@ -2,6 +2,7 @@ SPECIFICATION MCSpec
 CONSTANT InitialRto <- MCInitialRto
 CONSTANT Samples <- MCSamples
 VIEW View
+CONSTRAINT LeafCut
 INVARIANT TypeOK
 INVARIANT RtoBounds
 INVARIANT RtoFormula
